@@ -447,6 +447,58 @@ def s_threads(a, b):
     cover("threads")
 
 
+def s_scheme(url, via):
+    """URL schemes in unusual spelling (WSS://, Wss://, wSs://): whatever the library decides - refuse the URL, or treat the scheme
+    case-insensitively - a URL that spells wss never leads to a WebSocket request in clear text.  via: 'direct' or 'redirect'
+    (the URL arrives in the Location header of a 302 answered by a wss:// server)"""
+    quiet_logging()
+    import websocket
+    REC["wraps"].clear()
+    REC["contexts"].clear()
+    n = [0]
+
+    def respond(server, head, key):
+        n[0] += 1
+        if via == "redirect" and n[0] == 1:
+            return ("HTTP/1.1 302 Found\r\nLocation: %s\r\n\r\n" % url).encode()
+        return ("HTTP/1.1 101 Switching Protocols\r\nUpgrade: websocket\r\nConnection: Upgrade\r\nSec-WebSocket-Accept: %s\r\n\r\n" % accept_for(key)).encode()
+
+    k = Kernel(step_budget=4000)
+    net = Net(k, [{"respond": respond}])
+    simnet.install(k, net)
+    ep = EnvPatch()
+    ep.replace(_ssl, FakeSSLModule())
+    ep.os_env({}, set(), set())
+    ws, err = None, None
+    try:
+        try:
+            ws = websocket.create_connection(url if via == "direct" else "wss://first.example/start", timeout=5)
+        except (websocket.WebSocketException, ValueError, _ssl.SSLError) as e:
+            err = e
+        except (sx.Control, sx.ConcreteFailure, sx.ReplayMismatch):
+            raise
+        except Exception as e:
+            sx.require(False, "connect raised %s" % type(e).__name__, url=url, via=via)
+            return
+    finally:
+        ep.restore()
+        k.shutdown()
+        simnet.uninstall()
+    secure = url.lower().startswith("wss:")
+    target = "origin.example"
+    clear = [r for r in net.requests if ("host: " + target) in r[2].lower() and not net.socks[r[1]].tls]
+    if secure:
+        sx.require(not clear, "a URL whose scheme spells wss (in any letter case) never produces a WebSocket request in clear text", url=url, via=via,
+                   outcome="connected" if ws is not None else type(err).__name__)
+        if ws is not None:
+            w = [x for x in REC["wraps"] if x["server_hostname"] == target]
+            sx.require(len(w) == 1 and w[0]["verify_mode"] == _ssl.CERT_REQUIRED and w[0]["check_hostname"] is True,
+                       "if such a URL is accepted the connection is TLS with default verification", url=url, via=via)
+    else:
+        sx.require(not any(x["server_hostname"] == target for x in REC["wraps"]), "ws targets are never wrapped", url=url, via=via)
+    cover("scheme-accepted" if ws is not None else "scheme-refused")
+
+
 def obligations(tier):
     thr = list(PAIR_CFGS) if tier == "thorough" else ["default", "nohost", "certnone", "althost", "ciphers", "cafile"]
     return [
@@ -463,6 +515,11 @@ def obligations(tier):
         Obligation("S-seq", s_seq, [dict(first=f) for f in ("certnone", "nohost", "althost", "cafile", "optional", "context")],
                    bounds="a relaxing connection (6 kinds) followed by a default connection in the same process", must_cover=["seq"], step_budget=200000,
                    kernel=["_http._ssl_socket", "_wrap_sni_socket"]),
+        Obligation("S-scheme", s_scheme, [dict(url=u, via=v) for u in ("WSS://origin.example/chat", "Wss://origin.example/chat", "wSs://origin.example:8443/chat",
+                                                                       "wss://origin.example/chat", "WS://origin.example/chat", "ws://origin.example/chat")
+                                           for v in ("direct", "redirect")],
+                   bounds="scheme spelled wss / WSS / Wss / wSs / WS / ws, given directly or through the Location header of a redirect",
+                   must_cover=["scheme-accepted", "scheme-refused"], step_budget=200000, kernel=["_url.parse_url", "_http.connect", "WebSocket.connect (redirect)"]),
         Obligation("S-pair", s_pair, [dict(a=a, b=b) for a in PAIR_CFGS for b in PAIR_CFGS],
                    bounds="every ordered pair of 11 option sets (default, check_hostname False/True, CERT_NONE, CERT_OPTIONAL, ca_certs, ca_cert_path, "
                           "server_hostname, ciphers, certfile, ssl_version) used for two successive connections to different hosts in one process",
